@@ -421,3 +421,288 @@ def targets_fn(f, c, body):
 
 def calls_to(f, code, body):
     return [c for c in code.calls.values() if c.bb in code.reachable and targets_fn(f, c, body)]
+
+
+# ----------------------------------------------------------------------------------------------
+# "the entry that is removed is the entry that was looked up"
+
+def _position_sites(body):
+    """{dst local: note} for every `position(..)` that was read as a loop (normalize.py leaves a note)"""
+    out = {}
+    for i, bl in enumerate(body.blocks):
+        if bl["cleanup"] or i not in body.reachable:
+            continue
+        for s in bl["stmts"]:
+            if s["k"] == "note" and s.get("what") == "position" and not s["dst"]["proj"]:
+                out[s["dst"]["l"]] = s
+    return out
+
+
+def index_sources(body, op, sites=None):
+    """where the value of operand `op` (an index) comes from, following moves, `(x as Some).0` / `?` payloads,
+    `Some(..)` wrappers and `+ const`: list of ('pos', note, offset, def block) | ('const', value, def block) | ('?', text)"""
+    sites = _position_sites(body) if sites is None else sites
+    defs = body.defs()
+    out = []
+    seen = set()
+
+    def walk_place(pl, payload, offset, depth):
+        # pl: raw place; payload: how many Some-payload projections are still to be resolved
+        if depth > 40:
+            out.append(("?", "depth"))
+            return
+        proj = list(pl["proj"])
+        # strip `(x as Some).0` / `(x as Continue).0`
+        while len(proj) >= 2 and isinstance(proj[-2], dict) and proj[-2].get("downcast") in ("Some", "Continue", "Ok") \
+                and isinstance(proj[-1], dict) and proj[-1].get("f") == 0:
+            payload += 1
+            proj = proj[:-2]
+        # `.k` of a tuple built on the way (closure arguments), `.0` of a checked addition
+        fld = None
+        if len(proj) == 1 and isinstance(proj[0], dict) and "f" in proj[0] and not proj[0].get("variant"):
+            fld = proj[0]["f"]
+            proj = []
+        if proj:
+            out.append(("?", "projection"))
+            return
+        l = pl["l"]
+        key = (l, payload, offset, fld)
+        if key in seen:
+            return
+        seen.add(key)
+        if fld is not None:
+            for d in defs.get(l, []):
+                rv = body.blocks[d[1]]["stmts"][d[2]]["rv"] if d[0] == "stmt" else None
+                if rv is not None and "agg" in rv and rv["agg"]["kind"] == "tuple" and fld < len(rv["ops"]):
+                    o = rv["ops"][fld]
+                    if "const" in o:
+                        if payload == 0 and o["const"].get("value") is not None:
+                            out.append(("const", o["const"]["value"] + offset, d[1]))
+                        else:
+                            out.append(("?", "constant"))
+                    else:
+                        walk_place(o.get("move") or o.get("copy"), payload, offset, depth + 1)
+                elif rv is not None and "bin" in rv and rv["bin"].endswith("WithOverflow") and fld == 0:
+                    walk_place({"l": l, "proj": []}, payload, offset, depth + 1)
+                else:
+                    out.append(("?", "field of a computed value"))
+            return
+        if l in sites and payload >= 1:
+            out.append(("pos", sites[l], offset, None))
+            return
+        ds = defs.get(l, [])
+        if not ds:
+            out.append(("?", "no definition of _%d" % l))
+        for d in ds:
+            if d[0] == "arg":
+                out.append(("?", "parameter"))
+            elif d[0] == "call":
+                c = body.calls[d[1]]
+                if c.path in ("core::ops::Try::branch",) and c.args:
+                    a = c.args[0].get("move") or c.args[0].get("copy")
+                    if a is not None:
+                        # (branch(x) as Continue).0 is (x as Some).0 / (x as Ok).0
+                        walk_place(a, payload, offset, depth + 1)
+                        continue
+                if c.path == "core::ops::FromResidual::from_residual":
+                    continue   # the failure variant: carries no index
+                out.append(("?", "result of %s" % (c.path or "a call")))
+            elif d[0] == "stmt":
+                rv = body.blocks[d[1]]["stmts"][d[2]]["rv"]
+                if "use" in rv:
+                    cst = rv["use"].get("const")
+                    src = rv["use"].get("move") or rv["use"].get("copy")
+                    if cst is not None:
+                        if payload == 0 and cst.get("value") is not None:
+                            out.append(("const", cst["value"] + offset, d[1]))
+                        else:
+                            out.append(("?", "constant"))
+                    else:
+                        walk_place(src, payload, offset, depth + 1)
+                elif "agg" in rv and rv["agg"]["kind"] == "adt" and rv["agg"].get("variant") in ("Some", "Continue", "Ok") and rv["ops"]:
+                    if payload >= 1:
+                        o = rv["ops"][0]
+                        if "const" in o:
+                            if payload == 1 and o["const"].get("value") is not None:
+                                out.append(("const", o["const"]["value"] + offset, d[1]))
+                            else:
+                                out.append(("?", "constant"))
+                        else:
+                            walk_place(o.get("move") or o.get("copy"), payload - 1, offset, depth + 1)
+                    else:
+                        out.append(("?", "wrapped value used as index"))
+                elif "agg" in rv and rv["agg"]["kind"] == "adt" and rv["agg"].get("variant") in ("None", "Break", "Err"):
+                    continue   # carries no index
+                elif "bin" in rv and rv["bin"] in ("Add", "AddWithOverflow", "AddUnchecked"):
+                    a, b = rv["a"], rv["b"]
+                    ca, cb_ = a.get("const"), b.get("const")
+                    if cb_ is not None and cb_.get("value") is not None and "const" not in a:
+                        walk_place(a.get("move") or a.get("copy"), payload, offset + cb_["value"], depth + 1)
+                    elif ca is not None and ca.get("value") is not None and "const" not in b:
+                        walk_place(b.get("move") or b.get("copy"), payload, offset + ca["value"], depth + 1)
+                    else:
+                        out.append(("?", "sum of two variables"))
+                else:
+                    out.append(("?", "computed value"))
+            else:
+                out.append(("?", d[0]))
+
+    pl = op.get("move") or op.get("copy")
+    if pl is None:
+        c = op.get("const") or {}
+        return [("const", c.get("value"), None)] if c.get("value") is not None else [("?", "constant")]
+    walk_place(pl, 0, 0, 0)
+    return out
+
+
+def clause_removal_index(R, key, fn, q, id_param="packet_id", id_field="packet_id"):
+    """In `fn`, every `remove(i)` on queue q removes the entry whose identifier is the one asked for: i is what
+    `position(|e| e.<id_field> == <id_param>)` over the *whole* list returned -- or that position over the tail
+    `list[1..]` plus one, or 0 under a test that the first entry matches.  An index into a sub-slice used on the whole
+    list removes a neighbour: the exchange that was acknowledged stays, another one is dropped."""
+    f = R.f
+    code = f.code(fn)
+    rms = [c for c in code.calls.values() if c.bb in code.reachable and mname(c) in ("remove", "swap_remove") and len(c.args) >= 2
+           and any(x[0] == "field" and x[2] == q and x[3] == OUTBOUND for x in walk(code.operand_term(c.args[0])))]
+    ok = bool(rms)
+    why = "" if rms else "no removal found"
+    sites = _position_sites(code)
+    for c in rms:
+        for src in index_sources(code, c.args[1], sites):
+            if src[0] == "pos":
+                note, off = src[1], src[2]
+                recv = peel(code.operand_term(note["recv"]))
+                whole = _iterates(recv, q, tail=False)
+                tail = _iterates(recv, q, tail=True)
+                pred_ok = _pred_is_id_eq(f, code, note["f"], id_field, id_param)
+                if not pred_ok:
+                    ok, why = False, "the lookup's predicate is not `entry.%s == %s`" % (id_field, id_param)
+                elif whole and off == 0:
+                    pass
+                elif tail and off == 1:
+                    pass
+                else:
+                    ok = False
+                    why = "the index comes from a search over %s, used with offset %d on the whole list" % (show(recv)[:80], off)
+            elif src[0] == "const":
+                good = False
+                if src[1] == 0 and src[2] is not None:
+                    for sb in code.switches:
+                        if sb not in code.reachable:
+                            continue
+                        si = code.switch_info(sb)
+                        sj = peel(si["subject"])
+                        sides = None
+                        if sj[0] == "bin" and sj[1] == "Eq":
+                            sides = (peel(sj[2]), peel(sj[3]))
+                        elif is_call(sj, "PartialEq::eq", "eq") and len(sj[3]) == 2:
+                            sides = (peel(sj[3][0]), peel(sj[3][1]))
+                        te = si["edges"].get(True)
+                        if sides is None or te is None or not code.must_pass([0], [src[2]], via_edges=[(sb, te)])[0]:
+                            continue
+                        for a, b in (sides, sides[::-1]):
+                            if b == ("param", id_param) and chain(a, extra=ELEM)[1][-1:] == [id_field] and _is_first_of(a, q):
+                                good = True
+                if not good:
+                    ok, why = False, "the constant index %s is not guarded by a test that this entry is the one asked for" % (src[1],)
+            else:
+                ok, why = False, "the index is %s" % src[1]
+    R.ob(key, ok,
+         "`%s` removes from `%s` exactly the entry it looked up by identifier (the index handed to remove() is the position of "
+         "the matching entry in the whole list)%s" % (fn.fn_name, q, "" if ok else " — " + why), where=fn.span)
+
+
+def _iterates(recv, q, tail):
+    """recv is an iterator over the whole queue q (tail=False) or over q without its first entry (tail=True)"""
+    x = recv
+    for _ in range(8):
+        x = peel(x)
+        if is_call(x, "core::iter::IntoIterator::into_iter", "core::slice::<impl [T]>::iter", "VecInner::<T, LenT, S>::iter",
+                   "core::slice::<impl [T]>::iter_mut", "VecInner::<T, LenT, S>::iter_mut", "core::iter::Iterator::by_ref") and x[3]:
+            x = x[3][0]
+            continue
+        break
+    x = peel(x)
+    if not tail:
+        r, n = chain(x)
+        return n[-1:] == [q] and x[0] == "field"
+    # tail forms: (split_first(list) as Some).0.1  /  list[1..]
+    r, n = chain(x)
+    r = peel(r)
+    while isinstance(r, tuple) and r[0] == "ok":      # `split_first()?`
+        r = peel(r[1])
+    n = [k for k in n if not k.startswith("@") or k != "@Some"]
+    if is_call(r, "split_first") and n[-1:] == ["1"] and r[3]:
+        return chain(r[3][0])[1][-1:] == [q]
+    if is_call(x, "Index::index", "index") and len(x[3]) == 2:
+        rng = peel(x[3][1])
+        if rng[0] == "agg" and rng[4] == ["start"] and peel(rng[5][0])[0] == "const" and peel(rng[5][0])[2] == 1:
+            return chain(x[3][0])[1][-1:] == [q]
+    return False
+
+
+def _is_first_of(t, q):
+    for x in walk(t):
+        if isinstance(x, tuple) and x[0] == "ok":
+            continue
+        if isinstance(x, tuple) and is_call(x, "split_first", "first") and x[3] and chain(x[3][0])[1][-1:] == [q]:
+            return True
+        if isinstance(x, tuple) and x[0] in ("index", "cidx") and chain(x[1])[1][-1:] == [q]:
+            return True
+    return False
+
+
+def _pred_is_id_eq(f, code, fop, id_field, id_param):
+    """the closure handed to position() is |e| e.<id_field> == <captured id_param>"""
+    from .ops import _closure_defs
+    from ..core import subst
+    t = code.operand_term(fop)
+    defs = _closure_defs(t)
+    if len(defs) == 1 and defs[0] not in f.bodies:
+        # the closure body was folded into the loop the search is read as: its test is a switch of this function
+        for sb in code.switches:
+            if sb not in code.reachable:
+                continue
+            sj = peel(code.switch_info(sb)["subject"])
+            sides = None
+            if sj[0] == "bin" and sj[1] == "Eq":
+                sides = (peel(sj[2]), peel(sj[3]))
+            elif is_call(sj, "PartialEq::eq", "eq") and len(sj[3]) == 2:
+                sides = (peel(sj[3][0]), peel(sj[3][1]))
+            if sides is None:
+                continue
+            for a, b in (sides, sides[::-1]):
+                ra, na = chain(a, extra=ELEM)
+                if peel(b) == ("param", id_param) and na[-1:] == [id_field] and len(na) >= 2 \
+                        and any(isinstance(x, tuple) and is_call(x, "core::iter::Iterator::next") for x in walk(a)):
+                    return True
+        return False
+    if len(defs) != 1 or defs[0] not in f.bodies:
+        return False
+    cb = f.bodies[defs[0]]
+    if cb.arg_count < 2:
+        return False
+    env = {}
+    for x in walk(t):
+        if isinstance(x, tuple) and x[0] == "agg" and x[1] == "closure" and x[2] == defs[0]:
+            env = dict(zip(x[4], x[5]))
+    r = peel(cb.local_term(0))
+    sides = None
+    if r[0] == "bin" and r[1] == "Eq":
+        sides = (peel(r[2]), peel(r[3]))
+    elif is_call(r, "PartialEq::eq", "eq") and len(r[3]) == 2:
+        sides = (peel(r[3][0]), peel(r[3][1]))
+    if sides is None:
+        return False
+    for a, b in (sides, sides[::-1]):
+        ra, na = chain(a)
+        rb, nb = chain(b)
+        if ra == ("param", cb.param_name(2)) and na[-1:] == [id_field]:
+            # the other side is the captured identifier
+            if rb[0] == "param" and nb:
+                cap = env.get(nb[0])
+                if cap is not None and peel(cap) == ("param", id_param):
+                    return True
+            if peel(subst(b, env)) == ("param", id_param):
+                return True
+    return False
